@@ -68,7 +68,7 @@ PROPS = {
     "C09": dict(extra_prop_files=LOOK + CONG, prop_file="props/C09.v", generators=["T-lookups", "T-construct"], module="harness.p_hist",
                 slice="Construct.v vs Network on construction histories and the malformed-path stream",
                 trusted=["no axioms", "Construct.v as model of the construction calls (hand-written; PROVED equal to the regenerated calls; the networkx primitives of NxSupport.v are tied by the history correspondence)"] + LOOK_TRUST + CONG_TRUST),
-    "C07": dict(extra_prop_files=GLUE["extra_prop_files"] + VALG, prop_file="props/C07.v", generators=ENG + ["T-blocks", "T-validity"], module="harness.p_dyn",
+    "C07": dict(extra_prop_files=GLUE["extra_prop_files"] + VALG + INITV, prop_file="props/C07.v", generators=ENG + ["T-blocks", "T-validity", "T-initvars"], module="harness.p_dyn",
                 slice="Blocks.v trees vs NumPy/CasADi; every graph the implementation's is_valid accepts is stepped and compiled",
                 trusted=DYN_TRUST + ["PARTIAL: Python exceptions outside the modelled failure points, NumPy/CasADi shape rules and IEEE "
                                      "overflow / rounding are covered by the dynamic runs only (finiteness of a whole step is proved "
